@@ -7,5 +7,7 @@ CONSTANTS
   RegisterFirst = TRUE
   OldDelDeletedEarly = FALSE
   GcProtectsBuilding = TRUE
+  MaxFaults = 1
+  StoreMetaFirst = FALSE
 INVARIANT CrashNoOrphan
 CHECK_DEADLOCK FALSE
